@@ -479,9 +479,14 @@ impl VerifAutoAlloc {
         }
     }
 
-    /// `AutoAllocMessage::WorkerConnected`
-    pub async fn worker_connected(&mut self, worker: u32, allocation_id: &str) -> bool {
-        let config = WorkerConfiguration {
+    fn worker_config(allocation_id: &str) -> WorkerConfiguration {
+        // the manager info travels in the `extra` map, as a worker started inside an allocation sends it
+        let mut extra: tako::Map<String, String> = Default::default();
+        extra.insert(
+            crate::common::manager::info::WORKER_EXTRA_MANAGER_KEY.to_string(),
+            serde_json::to_string(&Self::manager_info(allocation_id)).unwrap(),
+        );
+        WorkerConfiguration {
             resources: ResourceDescriptor::simple_cpus(4),
             listen_address: String::new(),
             hostname: "verif".to_string(),
@@ -494,17 +499,33 @@ impl VerifAutoAlloc {
             retract_check_interval: Duration::from_secs(1),
             on_server_lost: ServerLostPolicy::Stop,
             min_utilization: 0.0,
-            extra: Default::default(),
-        };
-        self.message(AutoAllocMessage::WorkerConnected {
-            id: WorkerId::new(worker),
-            config,
-            manager_info: Self::manager_info(allocation_id),
-        })
-        .await
+            extra,
+        }
     }
 
-    /// `AutoAllocMessage::WorkerLost`
+    /// feeds everything the service put on its channel to the real `handle_message`
+    async fn drain_service(
+        &mut self,
+        mut rx: crate::common::rpc::RpcReceiver<AutoAllocMessage>,
+    ) -> bool {
+        let mut schedule = false;
+        while let Ok(m) = rx.try_recv() {
+            schedule |= self.message(m).await;
+        }
+        schedule
+    }
+
+    /// A worker of an allocation connects: through the real `AutoAllocService::on_worker_connected`
+    /// (as `server/state.rs` calls it), then `AutoAllocMessage::WorkerConnected`.
+    pub async fn worker_connected(&mut self, worker: u32, allocation_id: &str) -> bool {
+        let (service, rx) = crate::server::autoalloc::verif_alloc_service();
+        service.on_worker_connected(WorkerId::new(worker), &Self::worker_config(allocation_id));
+        drop(service);
+        self.drain_service(rx).await
+    }
+
+    /// A worker of an allocation is lost: through the real `AutoAllocService::on_worker_lost`, then
+    /// `AutoAllocMessage::WorkerLost`.
     pub async fn worker_lost(
         &mut self,
         worker: u32,
@@ -512,12 +533,14 @@ impl VerifAutoAlloc {
         reason: LostWorkerReason,
         lifetime: Duration,
     ) -> bool {
-        self.message(AutoAllocMessage::WorkerLost(
+        let (service, rx) = crate::server::autoalloc::verif_alloc_service();
+        service.on_worker_lost(
             WorkerId::new(worker),
-            Self::manager_info(allocation_id),
+            &Self::worker_config(allocation_id),
             LostWorkerDetails { reason, lifetime },
-        ))
-        .await
+        );
+        drop(service);
+        self.drain_service(rx).await
     }
 
     /// `AutoAllocMessage::JobSubmitted`
